@@ -1,7 +1,7 @@
 import Upa.Impl.SetRepExc
 import Upa.Impl.ObjRep
 /-
-  C20 once more on the operational model: `url::do_parse` (include/upa/url.h:1419-1468) on an EXISTING
+  C20 once more on the operational model: `url::do_parse` (include/upa/url.h:1419-1471) on an EXISTING
   object, whatever its stored members are - a valid url, a moved-from / cleared / failed one, or the
   half-edited object an exception inside a setter left behind (`failStates`, Impl/SetRepExc.lean) - and
   with ALLOCATION FAILURE inside the parse made explicit, `catch (...)` handler included.
@@ -17,16 +17,20 @@ import Upa.Impl.ObjRep
     url::clear (url.h:1397-1404)                 norm_url_.clear(); part_end_.fill(0); scheme_inf_ = nullptr;
                                                  flags_ = INITIAL_FLAGS; path_segment_count_ = 0; clear_search_params();
     url::reset_record (url.h:1140-1146)          the same without clear_search_params(); noexcept
-    url::do_parse (url.h:1419-1468)
+    url::do_parse (url.h:1419-1471)
         1422-1429   base == this / input is own data: a copy is made, do_parse is called again
         1433-1435   old_params.swap(search_params_ptr_->params_)     (no throw; the list is cleared by clear() anyway)
         1438        try {
         1439-1442     url_serializer urls(*this); urls.new_url();
         1445-1446     invalid base object: res = invalid_base
         1449-1452     do_trim; res = url_parser::url_parse(urls, first, last, base);
-        1454-1458   } catch (...) { reset_record(); throw; }
-        1459-1461   if (res == ok) { set_flag(VALID_FLAG); parse_search_params(); }
-        1462-1466   else reset_record();
+        1454-1459     if (res == ok) { set_flag(VALID_FLAG); parse_search_params(); }
+        1460-1464   } catch (...) { reset_record(); throw; }
+        1465-1469   if (res != ok) reset_record();
+      Since commit 46fa9a3 the block 1454-1459 is INSIDE the `try`; before, it followed the handler
+      (`doParseParamsOutsideTry` below keeps that version: a failing `parse_search_params()` left a
+      VALID url whose params object was not rebuilt from its query - found with this model, see
+      `Props/C20c.lean`, `C20c_params_outside_try_bites`).
 
   NOTE `new_url` tests ONLY `norm_url_`: members of an object whose string is empty are NOT reset.
   `Rep.newUrl` / `ObjR.newUrl` say exactly that; `Props/C20c.lean` shows what it means
@@ -41,9 +45,10 @@ import Upa.Impl.ObjRep
       of the representations the object has at these primitives, in program order.  NOTHING is assumed
       about `trace` (the theorems of Props/C20c hold for every list, in particular for the real
       one): the handler does not look at the half-built url;
-    * `parse_search_params()` (url.h:1461) AFTER the `try`, when the parse succeeded and the object
-      owns a params object: `params_ = do_parse(false, query)` builds a new list first
-      (url_search_params.h:520-523), so a failure leaves the list as `new_url` left it.
+    * `parse_search_params()` (url.h:1458), the LAST primitive inside the `try`, when the parse succeeded
+      and the object owns a params object: `params_ = do_parse(false, query)` builds a new list first
+      (url_search_params.h:520-523), so a failure leaves the list as `new_url` left it - and the
+      handler resets the record.
 -/
 namespace Upa.Impl
 open FaultRep
@@ -101,37 +106,42 @@ def tryBodyT (idna : Idna) (r : Rep) (e : Enc) (units : List Nat) (base : Option
   | some none => pure none
   | _ => ⟨trace, parseRepOn idna r e units (base.bind id)⟩
 
-/-- url.h:1459-1466 -/
-def parseFinish (o1 : ObjR) (res : Option Rep) (spFails : Bool) : ObjR × ParseEnd :=
+/-- url.h:1454-1459 and 1465-1469.  `paramsHandler`: what happens to the object when
+    `parse_search_params()` throws - the `catch (...)` block (`ObjR.resetRecord`) in the library, nothing
+    (`id`) when the call stood outside the `try` -/
+def parseFinish (paramsHandler : ObjR → ObjR) (o1 : ObjR) (res : Option Rep) (spFails : Bool) : ObjR × ParseEnd :=
   match res with
   | some r' =>
-    let o2 : ObjR := { o1 with rep := r', valid := true }                       -- 1460
-    if spFails && o1.sp.isSome then (o2, .threw)                                -- 1461 throws
-    else ({ o2 with sp := parseSp r' o1.sp }, .returned true)                   -- 1461
-  | none => (o1.resetRecord, .returned false)                                   -- 1465
+    let o2 : ObjR := { o1 with rep := r', valid := true }                       -- 1455
+    if spFails && o1.sp.isSome then (paramsHandler o2, .threw)                  -- 1458 throws
+    else ({ o2 with sp := parseSp r' o1.sp }, .returned true)                   -- 1458
+  | none => (o1.resetRecord, .returned false)                                   -- 1468
 
 /-- `url::do_parse` on the object `o` under the schedule "the `k`-th throwing primitive fails"
     (`none`: no failure).  `handler`: what the `catch (...)` block does to the object before it
-    rethrows - `ObjR.resetRecord` in the library (url.h:1454-1458), `id` in the library before the
-    repair of F15. -/
-def doParseWith (handler : ObjR → ObjR) (idna : Idna) (o : ObjR) (e : Enc) (units : List Nat)
+    rethrows when a primitive of `url_parse` fails; `paramsHandler`: the same for `parse_search_params()`. -/
+def doParseWith (handler paramsHandler : ObjR → ObjR) (idna : Idna) (o : ObjR) (e : Enc) (units : List Nat)
     (base : Option (Option Rep)) (pre : Nat) (trace : List Rep) (k : Option Nat) : ObjR × ParseEnd :=
   let o1 := o.newUrl                                                            -- 1442
   let body := tryBodyT idna o.rep e units base trace
   match k with
-  | none => parseFinish o1 body.val false
+  | none => parseFinish paramsHandler o1 body.val false
   | some i =>
     if i < pre then (o, .threw)                                                 -- 1423 / 1427
     else
       match body.run (some (i - pre)) with
-      | (.threw half, _) => (handler { o1 with rep := half }, .threw)           -- 1454-1458
-      | (.done res, n) => parseFinish o1 res (i - pre == n)
+      | (.threw half, _) => (handler { o1 with rep := half }, .threw)           -- 1460-1464
+      | (.done res, n) => parseFinish paramsHandler o1 res (i - pre == n)
 
-/-- the library -/
-def doParseExc := doParseWith ObjR.resetRecord
+/-- the library: every failure from `new_url()` to `parse_search_params()` goes through
+    `catch (...) { reset_record(); throw; }` (url.h:1438-1464) -/
+def doParseExc := doParseWith ObjR.resetRecord ObjR.resetRecord
 
-/-- the library before F15 was repaired: no handler -/
-def doParseNoCatch := doParseWith id
+/-- the library between the repair of F15 and commit 46fa9a3: `parse_search_params()` AFTER the handler -/
+def doParseParamsOutsideTry := doParseWith ObjR.resetRecord id
+
+/-- the library before F15 was repaired: no handler at all -/
+def doParseNoCatch := doParseWith id id
 
 /-- every object a failing `do_parse` call can leave behind -/
 def parseFailStates (idna : Idna) (o : ObjR) (e : Enc) (units : List Nat) (base : Option (Option Rep))
